@@ -242,7 +242,8 @@ def inline_new_helpers(mod, pinned):
             name = helper.name
             still = [n for n in ast.walk(mod.tree) if (isinstance(n, ast.Name) and n.id == name) or (isinstance(n, ast.Attribute) and n.attr == name)]
             still = [n for n in still if not any(a is helper for a in _ancestors(n))]
-            if not still:
+            from .model import parent as _par
+            if not still and isinstance(_par(helper), ast.Module):
                 lst, i = _block_of(helper)
                 if lst is not None:
                     lst.pop(i)
@@ -343,6 +344,44 @@ def propagate_new_temporaries(mod, pinned):
                            and st.lineno < n.lineno < last]
                 if rebound:
                     continue
+                # the temporary must not be the target of a mutation (replacing it by its value would mutate a different object)
+                def _mutated_through(l):
+                    p_ = l._parent if hasattr(l, "_parent") else None
+                    from .model import parent as _par
+                    p_ = _par(l)
+                    if isinstance(p_, (ast.Subscript, ast.Attribute)) and p_.value is l:
+                        if isinstance(p_.ctx, (ast.Store, ast.Del)):
+                            return True
+                        pp = _par(p_)
+                        if isinstance(p_, ast.Attribute) and p_.attr in MUTATING and isinstance(pp, ast.Call) and pp.func is p_:
+                            return True
+                        if isinstance(pp, ast.AugAssign) and pp.target is p_:
+                            return True
+                    if isinstance(p_, ast.AugAssign) and p_.target is l:
+                        return True
+                    return False
+                if any(_mutated_through(l) for l in loads):
+                    continue
+                # several uses of a freshly built mutable object would become several objects
+                fresh = any(isinstance(x, (ast.Dict, ast.List, ast.Set, ast.ListComp, ast.SetComp, ast.DictComp, ast.GeneratorExp)) for x in ast.walk(rhs)) or \
+                    any(isinstance(x, ast.Call) and _call_tail(x) in FRESH for x in ast.walk(rhs))
+                if fresh and len(loads) > 1:
+                    continue
+                # the objects the value is computed from must not be mutated between the definition and the last use
+                def _mutates_input(n):
+                    if isinstance(n, (ast.Subscript, ast.Attribute)) and isinstance(n.ctx, (ast.Store, ast.Del)):
+                        b = n
+                        while isinstance(b, (ast.Subscript, ast.Attribute)):
+                            b = b.value
+                        return isinstance(b, ast.Name) and b.id in inputs
+                    if isinstance(n, ast.Call) and isinstance(n.func, ast.Attribute) and n.func.attr in MUTATING:
+                        b = n.func.value
+                        while isinstance(b, (ast.Subscript, ast.Attribute)):
+                            b = b.value
+                        return isinstance(b, ast.Name) and b.id in inputs
+                    return False
+                if any(_mutates_input(n) for n in _own_stmt_nodes(fn) if hasattr(n, "lineno") and st.lineno < n.lineno < last and id(n) not in rhs_nodes):
+                    continue
                 # loops: a use inside a loop that does not contain the definition would re-evaluate the value each iteration;
                 # harmless for pure values, but skip values containing calls in that case
                 has_call = any(isinstance(x, ast.Call) for x in ast.walk(rhs))
@@ -408,6 +447,15 @@ def propagate_new_temporaries(mod, pinned):
             if not done:
                 break
     return count
+
+
+FRESH = set(["list", "dict", "set", "sorted", "split", "rsplit", "splitlines", "keys", "values", "items", "reversed", "copy", "deepcopy", "OrderedDict", "defaultdict", "findall"])
+
+
+def _call_tail(c):
+    from .model import dotted
+    n = dotted(c.func) or (c.func.attr if isinstance(c.func, ast.Attribute) else "")
+    return n.split(".")[-1]
 
 
 def _contains(root, sub):
